@@ -41,7 +41,7 @@ def crop_to_bbox(
     r_offset = (bbox_coords + bbox_size) - np.array(data.shape)
     r_offset[r_offset < 0] = 0
 
-    region_idx = [slice(i, j) for i, j in zip(bbox_coords + l_offset, bbox_coords + bbox_size - r_offset)]
+    region_idx = [slice(i, max(i, j)) for i, j in zip(bbox_coords + l_offset, bbox_coords + bbox_size - r_offset)]
 
     if isinstance(data, torch.Tensor):
         # TODO(jt): Investigate if clone is needed
@@ -54,11 +54,11 @@ def crop_to_bbox(
 
     # If we have a positive offset, we need to pad the patch.
     if isinstance(data, torch.Tensor):
-        patch = pad_value * torch.ones(bbox_size.tolist(), dtype=data.dtype)
+        patch = torch.full(bbox_size.tolist(), pad_value, dtype=data.dtype)
     else:
-        patch = pad_value * np.ones(bbox_size.tolist(), dtype=data.dtype)
+        patch = np.full(bbox_size.tolist(), pad_value, dtype=data.dtype)
 
-    patch_idx = [slice(i, j) for i, j in zip(l_offset, bbox_size - r_offset)]
+    patch_idx = [slice(i, max(i, j)) for i, j in zip(l_offset, bbox_size - r_offset)]
     patch[tuple(patch_idx)] = out
 
     return patch
@@ -85,7 +85,7 @@ def crop_to_largest(
     shapes = np.asarray([_.shape for _ in data])
     max_shape = shapes.max(axis=0)
 
-    crop_start_per_shape = [-(max_shape - np.asarray(_)) // 2 for _ in shapes]
+    crop_start_per_shape = [-((max_shape - np.asarray(_)) // 2) for _ in shapes]
     crop_boxes = [_.tolist() + max_shape.tolist() for _ in crop_start_per_shape]
 
     return [crop_to_bbox(curr_data, bbox, pad_value=pad_value) for curr_data, bbox in zip(data, crop_boxes)]
